@@ -110,7 +110,10 @@ func (rn *runner) clusterEnvGet() (*clusterEnv, error) {
 		if err != nil {
 			return nil, err
 		}
-		if err := db.CreateTable(&zenodb.TableOpts{Name: "t", RetentionPeriod: time.Hour, SQL: tableSQL(false),
+		// PartitionBy names the dimension the scenario's partitions are keyed by: since /repo d1dff43
+		// a table whose GROUP BY drops a partition key (PartitionBy unset = all dimensions of the
+		// point) is never pushed down whole
+		if err := db.CreateTable(&zenodb.TableOpts{Name: "t", RetentionPeriod: time.Hour, SQL: tableSQL(false), PartitionBy: []string{"k"},
 			MinFlushLatency: 10000 * time.Hour, MaxFlushLatency: 20000 * time.Hour}); err != nil {
 			return nil, err
 		}
